@@ -405,6 +405,9 @@ func propCases(res *Result, prop, tier string, g *Gen, n int, batch int) []*Case
 		cases = append(cases, contractCases(g, n*4)...)
 	case "C03", "C06", "C12", "C15":
 		cases = append(cases, engineCases(g, n/3, true, prop != "C12")...)
+		if prop == "C15" && batch == 0 {
+			cases = append(cases, emptyStackCases()...)
+		}
 		if prop != "C15" && batch == 0 {
 			// runtime.Error, *net.OpError, redact.SafeMessager (kinds the special-case formatter knows
 			// and the model does not): direct oracles only
